@@ -19,6 +19,10 @@
 //                      the returned score is printed; with hook H3 and TEXEL_VERIF_TRACE set the
 //                      nodes are traced like in the engine
 //   T                  clear the transposition table
+//   M fen              exact distance to mate of a pawnless position of <= 4 men from the engine's
+//                      own retrograde generator (TBGenerator<VectorStorage>, generated on first
+//                      use per material class; certified exact by the C12 check):
+//                      "mate n" | "mated n" | "draw" | "none"
 //   R dtm ply hmc old  tbprobe.cpp rule50Margin on an entry whose evalScore field is old:
 //                      "margin evalScoreAfter"                              (C13)
 //   X eval dist        Evaluate::swindleScore(eval, dist)                  (C13)
@@ -43,6 +47,9 @@
 #include "treeLogger.hpp"
 #include "tbprobe.hpp"
 #include "computerPlayer.hpp"
+#include "tbgen.hpp"
+#include "bitBoard.hpp"
+#include <map>
 #undef private
 #undef protected
 
@@ -194,6 +201,49 @@ int main() {
                     for (int d = 0; d <= n && D < 0; d++)
                         if (matedIn(pos, d)) D = d;
                     std::cout << D << '\n';
+                }
+            } catch (const std::exception& e) {
+                std::cout << "ERR " << e.what() << '\n';
+            }
+        } else if (k == "M") {
+            std::string fen; std::getline(is, fen);
+            fen.erase(0, fen.find_first_not_of(' '));
+            try {
+                Position pos = TextIO::readFEN(fen);
+                PieceCount pc;
+                pc.nwq = BitBoard::bitCount(pos.pieceTypeBB(Piece::WQUEEN));
+                pc.nwr = BitBoard::bitCount(pos.pieceTypeBB(Piece::WROOK));
+                pc.nwb = BitBoard::bitCount(pos.pieceTypeBB(Piece::WBISHOP));
+                pc.nwn = BitBoard::bitCount(pos.pieceTypeBB(Piece::WKNIGHT));
+                pc.nbq = BitBoard::bitCount(pos.pieceTypeBB(Piece::BQUEEN));
+                pc.nbr = BitBoard::bitCount(pos.pieceTypeBB(Piece::BROOK));
+                pc.nbb = BitBoard::bitCount(pos.pieceTypeBB(Piece::BBISHOP));
+                pc.nbn = BitBoard::bitCount(pos.pieceTypeBB(Piece::BKNIGHT));
+                bool pawns = (pos.pieceTypeBB(Piece::WPAWN) | pos.pieceTypeBB(Piece::BPAWN)) != 0;
+                if (pawns || pc.nPieces() > 4 || pc.nPieces() < 3) {
+                    std::cout << "none\n";
+                } else {
+                    static std::map<std::vector<int>, std::pair<std::unique_ptr<VectorStorage>, std::unique_ptr<TBGenerator<VectorStorage>>>> tbs;
+                    std::vector<int> key = {pc.nwq, pc.nwr, pc.nwb, pc.nwn, pc.nbq, pc.nbr, pc.nbb, pc.nbn};
+                    auto it = tbs.find(key);
+                    if (it == tbs.end()) {
+                        std::unique_ptr<VectorStorage> vs(new VectorStorage);
+                        std::unique_ptr<TBGenerator<VectorStorage>> g(new TBGenerator<VectorStorage>(*vs, pc));
+                        RelaxedShared<S64> maxT(-1);
+                        bool ok = g->generate(maxT, false);
+                        if (!ok) g.reset();
+                        it = tbs.emplace(key, std::make_pair(std::move(vs), std::move(g))).first;
+                    }
+                    int score = 0;
+                    if (!it->second.second || !it->second.second->probeDTM(pos, 0, score)) {
+                        std::cout << "none\n";
+                    } else if (score == 0) {
+                        std::cout << "draw\n";
+                    } else if (score > 0) {
+                        std::cout << "mate " << (SearchConst::MATE0 - score) / 2 << '\n';
+                    } else {
+                        std::cout << "mated " << (SearchConst::MATE0 + score - 1) / 2 << '\n';
+                    }
                 }
             } catch (const std::exception& e) {
                 std::cout << "ERR " << e.what() << '\n';
